@@ -4,6 +4,7 @@ import (
 	"fmt"
 	"sort"
 	"strings"
+	"sync"
 	"testing"
 
 	"golang.org/x/net/internal/zzverif/vx"
@@ -13,7 +14,7 @@ import (
 //
 // Discipline SEQ with state deduplication: breadth-first search over operation
 // sequences on a fresh real pipe (natural 4096-byte chunks) in lock-step with
-// a reference model that is a plain array offset -> (known?, byte) plus the
+// a reference model that is a plain array offset -> last writer (hence byte) plus the
 // window [start, end).
 //
 // Operations:
@@ -66,31 +67,73 @@ func (o c30Op) String() string {
 	return "?"
 }
 
+// c30Bufs are the model's arrays; they are recycled between explored histories
+// (always cleared before reuse) only to keep the allocator out of the profile.
+type c30Bufs struct {
+	owner []uint8 // owner[abs] = position (1..) in the history of the operation that last wrote abs; 0 = never written
+	hi    int64   // owner[hi:] is all zero
+	data  []byte  // scratch for the bytes handed to writeAt
+	rd    []byte  // scratch for reads
+}
+
+var c30Pool = sync.Pool{New: func() any {
+	return &c30Bufs{owner: make([]uint8, 1<<16), data: make([]byte, 0, 1<<14), rd: make([]byte, 0, 1<<16)}
+}}
+
 type c30State struct {
 	p          pipe
 	start, end int64
-	known      []bool
-	val        []byte
-	seq        int
+	*c30Bufs
+	seq      int
+	lastKind string // kind of the last operation (for signatures)
 }
 
-func (s *c30State) grow(n int64) {
-	for int64(len(s.known)) < n {
-		s.known = append(s.known, make([]bool, 4096)...)
-		s.val = append(s.val, make([]byte, 4096)...)
+func c30New() *c30State { return &c30State{c30Bufs: c30Pool.Get().(*c30Bufs)} }
+
+func c30Close(s *c30State) {
+	b := s.c30Bufs
+	if b == nil {
+		return
+	}
+	s.c30Bufs = nil
+	// Return the pipe's chunks to the package's chunk pool, as discarding the
+	// whole pipe would (keeps the allocator quiet and makes recycled chunks,
+	// with their stale contents, the common case).
+	for pb, i := s.p.head, 0; pb != nil && i < 64; i++ {
+		next := pb.next
+		pb.recycle()
+		pb = next
+	}
+	s.p = pipe{}
+	clear(b.owner[:b.hi])
+	b.hi = 0
+	c30Pool.Put(b)
+}
+
+func (s *c30State) set(abs int64) {
+	if abs >= int64(len(s.owner)) {
+		s.owner = append(s.owner, make([]uint8, abs+1-int64(len(s.owner))+4096)...)
+	}
+	s.owner[abs] = uint8(s.seq)
+	if abs >= s.hi {
+		s.hi = abs + 1
 	}
 }
 
-func (s *c30State) set(abs int64, b byte) {
-	s.grow(abs + 1)
-	s.known[abs], s.val[abs] = true, b
-}
-
+// get returns the byte last written at abs, if any.
 func (s *c30State) get(abs int64) (byte, bool) {
-	if abs >= int64(len(s.known)) || !s.known[abs] {
+	if abs >= s.hi || s.owner[abs] == 0 {
 		return 0, false
 	}
-	return s.val[abs], true
+	return c30Fill(int(s.owner[abs]), abs), true
+}
+
+// scratch returns a zero-length slice with capacity >= n.
+func c30Scratch(b *[]byte, n int) []byte {
+	if cap(*b) < n {
+		*b = make([]byte, 0, n+4096)
+	}
+	return (*b)[:0]
 }
 
 // c30Where classifies an absolute offset for signatures.
@@ -108,7 +151,7 @@ func c30Where(abs int64) string {
 func c30CopyCheck(w *vx.W, s *c30State, a, b int64, clause, ctx string) bool {
 	n := int(b - a)
 	const guard = 8
-	buf := make([]byte, n+guard)
+	buf := c30Scratch(&s.rd, n+guard)[:n+guard]
 	for i := range buf {
 		buf[i] = c30Poison
 	}
@@ -168,7 +211,32 @@ func c30Canon(s *c30State) string {
 		run++
 	}
 	fmt.Fprintf(&sb, "%v%d", cur, run)
+	if c30Diverged(s) {
+		sb.WriteString("|DIVERGED")
+	}
 	return sb.String()
+}
+
+// c30Diverged reports whether some written byte of the window reads back
+// differently (or reading the window panics).
+func c30Diverged(s *c30State) (bad bool) {
+	defer func() {
+		if recover() != nil {
+			bad = true
+		}
+	}()
+	n := s.end - s.start
+	if n < 0 || s.p.start != s.start || s.p.end != s.end {
+		return true
+	}
+	buf := c30Scratch(&s.rd, int(n))[:n]
+	s.p.copy(s.start, buf)
+	for i, b := range buf {
+		if want, ok := s.get(s.start + int64(i)); ok && want != b {
+			return true
+		}
+	}
+	return false
 }
 
 func c30Enabled(s *c30State, op c30Op) bool {
@@ -191,14 +259,14 @@ func c30Apply(w *vx.W, s *c30State, op c30Op) bool {
 	s.seq++
 	kind := op.K
 	write := func(off, n int64) {
-		data := make([]byte, n)
+		data := c30Scratch(&s.data, int(n))[:n]
 		for i := range data {
 			data[i] = c30Fill(s.seq, off+int64(i))
 		}
 		s.p.writeAt(data, off)
 		for i := range data {
 			if a := off + int64(i); a >= s.start {
-				s.set(a, data[i])
+				s.set(a)
 			}
 			data[i] = c30Poison // the pipe must have copied it
 		}
@@ -232,25 +300,25 @@ func c30Apply(w *vx.W, s *c30State, op c30Op) bool {
 			kind = "f+discard"
 		}
 		for i := int64(0); i < n; i++ {
-			b := c30Fill(s.seq, s.end+i)
-			buf[i] = b
-			s.set(s.end+i, b)
+			buf[i] = c30Fill(s.seq, s.end+i)
+			s.set(s.end + i)
 		}
 		s.p.end += n
 		s.end += n
 	}
-	ctx := "after " + op.String()
 	if s.p.start != s.start {
-		w.Failf("C30/window/start/after-"+kind, "%s: pipe.start=%d, reference %d", ctx, s.p.start, s.start)
+		w.Failf("C30/window/start/after-"+kind, "after %v: pipe.start=%d, reference %d", op, s.p.start, s.start)
 		return false
 	}
 	if s.p.end != s.end {
-		w.Failf("C30/window/end/after-"+kind, "%s: pipe.end=%d, reference %d", ctx, s.p.end, s.end)
+		w.Failf("C30/window/end/after-"+kind, "after %v: pipe.end=%d, reference %d", op, s.p.end, s.end)
 		return false
 	}
-	if !c30CopyCheck(w, s, s.start, s.end, "read-whole-window/after-"+kind, ctx) {
-		return false
-	}
+	s.lastKind = kind
+	// The whole-window comparison for this transition happens in c30Canon
+	// (c30Diverged), which the explorer evaluates once per explored transition
+	// but not while re-playing a prefix; a divergence makes a distinct state, on
+	// which c30Final reports it.
 	// recorded, not asserted: the struct comments' chunk-list relations
 	nch := 0
 	for pb := s.p.head; pb != nil && nch < 64; pb = pb.next {
@@ -275,6 +343,10 @@ func c30Final(pts []int64) func(w *vx.W, s *c30State) {
 		}
 		sort.Slice(q, func(i, j int) bool { return q[i] < q[j] })
 		ctx := "in the state reached by the history"
+		got := make([]byte, 0, s.end-s.start)
+		if !c30CopyCheck(w, s, s.start, s.end, "read-whole-window/after-"+s.lastKind, ctx) {
+			return
+		}
 		for i, a := range q {
 			if i > 0 && q[i-1] == a {
 				continue
@@ -288,7 +360,7 @@ func c30Final(pts []int64) func(w *vx.W, s *c30State) {
 					return
 				}
 				// read: the concatenation of the callback's slices is [a,b)
-				var got []byte
+				got = got[:0]
 				calls := 0
 				err := s.p.read(a, int(b-a), func(c []byte) error {
 					calls++
@@ -357,12 +429,13 @@ func TestVerif_C30(t *testing.T) {
 				ops = append(ops, c30Op{K: "f", Len: n, Mid: mid})
 			}
 		}
-		c.Rule(fmt.Sprintf("breadth-first search to depth %d from the empty pipe over %d operations: writeAt(off in %v, len in %v), writeAt(end, len in {1,4095,4096,4097}), discardBefore(off in the same offsets, off >= start), discardBefore(end), and the Stream.Write fast path (availableBuffer, optional discardBefore(end|4096|8192) in between, write min(len, available) for len in {1,4096}, end += n); pooled 4096-byte chunks (natural size). States are deduplicated on (start, end, chunk offsets and tail, runs of written/never-written offsets in the window). After every operation: start, end and the whole window [start,end) via copy are compared with an offset->byte array; on every new state: copy and read (callback concatenation) of every sub-range with endpoints in the offsets u {start,start+1,end-1,end}, and peek(n). Non-trivial = an operation that was applied and compared.", depth, len(ops), P, L))
+		c.Rule(fmt.Sprintf("breadth-first search to depth %d from the empty pipe over %d operations: writeAt(off in %v, len in %v), writeAt(end, len in {1,4095,4096,4097}), discardBefore(off in the same offsets, off >= start), discardBefore(end), and the Stream.Write fast path (availableBuffer, optional discardBefore(end|4096|8192) in between, write min(len, available) for len in {1,4096}, end += n); pooled 4096-byte chunks (natural size). States are deduplicated on (start, end, chunk offsets and tail, runs of written/never-written offsets in the window). After every operation: start, end and the whole window [start,end) via copy are compared with an offset->byte array (a divergence makes a distinct state and is reported by the per-state check); on every new state: copy and read (callback concatenation) of every sub-range with endpoints in the offsets u {start,start+1,end-1,end}, and peek(n). Non-trivial = an operation that was applied and compared.", depth, len(ops), P, L))
 		c.Assume("the pipe never branches on byte values, so states that agree on structure (and whose contents were just verified equal to the model's) have equal futures")
 		c.Assume("never-written offsets inside the window (holes left by out-of-order writes or by advancing the window without data) have unspecified contents and are not compared; reads are only issued inside [start,end); discardBefore only moves forward; peek may return fewer than n bytes (documented range [0,n]); the chunk-list relations of the struct comments are recorded as outcomes, not asserted")
 		vx.Seq(c, vx.SeqSpec[*c30State, c30Op]{
 			Part:    "natural-4096",
-			New:     func() *c30State { return &c30State{} },
+			New:     c30New,
+			Close:   c30Close,
 			Ops:     ops,
 			Enabled: c30Enabled,
 			Apply:   c30Apply,
